@@ -1,5 +1,5 @@
 PROP = {
-    "thm": "Umya.Thm.C15",
+    "thm": ["Umya.Thm.C15", "Umya.Thm.C15Gen"],
     "harness": "c15",
     "level": "proof",
     "stateful": False,
@@ -14,7 +14,7 @@ PROP = {
                   "(unb64 (b64 x) = some x; base64 text needs no XML escaping; digest-distinctness for 'another password fails'). "
                   "The executable Lean SHA-512/base64 used by the driver are validated by FIPS 180-4 / RFC 4648 vectors and by agreeing "
                   "with the Rust sha2 crate on every line.",
-    "expect_theorems": ["C15_hash", "C15_verifies", "C15_other_fails", "C15_no_clear", "C15_roundtrip"],
+    "expect_theorems": ["C15_constants_match_source", "C15_hash", "C15_verifies", "C15_other_fails", "C15_no_clear", "C15_roundtrip"],
     "rule": "hook stream: every password x spin in {0,1,2,3,10,257} x salt shape (empty / 16 random / 16 x 0xff / 1..40 random) plus a few "
             "at spin 100000; setter stream: every password (empty, ASCII, 1 char, XML-special, BMP scripts, non-BMP, 255 x ASCII, 255 mixed "
             "incl. non-BMP; thorough: 60 incl. random over a special alphabet) x 3 kinds x pre-state (fresh / legacy raw hash / old hashed "
